@@ -467,6 +467,18 @@ def run_shard(ctx):
                 ok = reg_only_args and all((r in sub_role and set(o) <= partial) or r == "registry" for r, o in roles)
                 return ("partial-attach-not-rolled-back" if ok else generic), roles
             if opname == "replace_with_attach_fails" and ename == "ASTNodeReplaceWithError":
+                # extent of the recorded mechanism: the attach of `new` walks its subtree in pre-order and stops at the
+                # first node whose id is taken; nodes that come later in that order were never reached
+                new_root = next((a for a in args if hasattr(a, "detached")), None)
+                if new_root is not None:
+                    order = struct_subtree(U, new_root)
+                    reg0 = before["registry"]
+                    stop = next((i for i, x in enumerate(order) if i > 0 and (before["nodes"].get(id(x)) or (False,))[0] and reg0.get(before["nodes"][id(x)][5]) not in (None, id(x))), None)
+                    if stop is not None:
+                        ctx.count("nodes_after_failing_descendant_checked")
+                        late = {id(x) for x in order[stop + 1:]} - {id(x) for x in order[: stop + 1]}
+                        if any(dd.get("obj") in late for dd in diff):
+                            return generic + "|node-after-the-failing-descendant-changed", roles
                 ok = reg_only_args and all((r == "argument-subtree" and set(o) <= partial | {"id", "original_id"}) or r == "registry" for r, o in roles)
                 return ("replace_with-failed-attach-keeps-new-node-changes" if ok else generic), roles
             return generic, roles
